@@ -38,6 +38,63 @@ def callnames(evs):
     return [(strip_generics(e[1]).split("::")[-2] + "::" + strip_generics(e[1]).split("::")[-1], [pathx.desc(a) for a in e[2]["a"]]) for e in evs if e[0] == "call"]
 
 
+def env_table(ctx, rule):
+    """from_environment: global files never carry an applies_in; a file located through git's own configuration
+    (the gix_config section) or a bazaar location is tagged with that VCS, the application's own file with none"""
+    facts = ctx.facts
+    fe = body_of(ctx, rule, D + "::from_environment")
+    root = thir.root(fe)
+    top = None
+    for blk in thir.find(root, "block"):
+        if len(blk.get("s", [])) >= 4:
+            top = blk
+            break
+    if top is None:
+        ctx.violation(rule, "floor:env-body", "from_environment's body block not found", fe.loc(fe.line))
+        return
+    n = 0
+    kinds = {}
+    for st in list(top.get("s", [])) + ([top["e"]] if top.get("e") is not None else []):
+        if not isinstance(st, dict):
+            continue
+        calls = thir.calls_in(st)
+        gix = any(strip_generics(c).startswith("gix_config::") for c, _ in calls)
+        lits = " ".join(str(x["s"]) for x in thir.walk(st) if isinstance(x, dict) and x.get("k") == "lit" and "s" in x)
+        # candidates collected in a vector first: the literals pushed into the vector the enclosing `for` iterates
+        for m in thir.find(st, "match"):
+            if m.get("src") == "ForLoopDesugar":
+                inner = thir.peel(m["e"])
+                if inner.get("k") == "call" and inner.get("a"):
+                    vec = pathx.desc(inner["a"][0])
+                    for c2, n2 in thir.calls_in(root):
+                        if strip_generics(c2).endswith("Vec::push") and pathx.desc(n2["a"][0]) == vec:
+                            lits += " " + " ".join(str(x["s"]) for x in thir.walk(n2) if isinstance(x, dict) and x.get("k") == "lit" and "s" in x)
+        for c, nd in calls:
+            if not strip_generics(c).endswith("discover::discover_file"):
+                continue
+            n += 1
+            a_in, a_to = pathx.desc(nd["a"][2]), pathx.desc(nd["a"][3])
+            ctx.require(a_in == "None", rule, "env:global-scope", "a file from the environment applies globally (applies_in = None)", fe.loc(nd["l"]), detail=a_in)
+            if gix:
+                want = "Some{0: Git}"
+                why = "located through git's configuration"
+            elif "git" in lits.lower():
+                want = "Some{0: Git}"
+                why = "at a git location"
+            elif "baz" in lits.lower() or "bzr" in lits.lower():
+                want = "Some{0: Bazaar}"
+                why = "at a bazaar location"
+            else:
+                want = "None"
+                why = "the application's own file"
+            kinds[want] = kinds.get(want, 0) + 1
+            ctx.require(a_to == want, rule, "env:tag:%s" % why.replace(" ", "-"), "a global ignore file %s is tagged %s" % (why, want), fe.loc(nd["l"]), detail=a_to,
+                        fail="the global ignore file %s is tagged %s instead of %s: --no-vcs-ignore / --no-global-ignore no longer remove exactly the sources they name" % (why, a_to, want))
+    ctx.floor(rule, "discover_file call sites in from_environment", n, 4)
+    ctx.require(kinds.get("Some{0: Git}", 0) >= 2 and kinds.get("None", 0) >= 1, rule, "env:classes", "git-config, git-location and application files are all looked for",
+                fe.loc(fe.line), detail=str(kinds))
+
+
 def run(ctx):
     ctx.level = "other"
     facts = ctx.facts
@@ -255,6 +312,7 @@ def run(ctx):
         for r in sorted(want_rows):
             ctx.require(r in norm, "R14.4", "row:" + r[2], "%s applies in %s for %s" % (r[2], r[0], r[1]), fo.loc(fo.line),
                         fail="the discovery table no longer has the row %s (found %s)" % (r, sorted(x for x in norm if x[2] == r[2])))
+        env_table(ctx, "R14.4")
         # VCS metadata dirs vs project-origins
         dn = body_of(ctx, "R14.4", D + "::DirTourist::new")
         globs = set()
